@@ -113,6 +113,10 @@ structure World where
   metaStale : Bool := false
   /-- the last failure was such a rejected conditional PUT -/
   preFail : Bool := false
+  /-- indexes whose remembered manifest version is behind the stored one: the manifest PUT of a
+  compaction landed but reported failure (compaction does not poison). The next conditional manifest
+  PUT of that index is rejected. Cleared by a reopen. -/
+  ixStale : List Nat := []
 
 /-- one backend mutation attempt: `(world, reported_ok)` -/
 def World.attempt (w : World) (e : Ev) (f : Durable → Durable) : World × Bool :=
@@ -318,8 +322,13 @@ def flushStep (now : Nat) (pendMeta pendIdx pendMut : Bool) (c : FlushCtx) (s : 
   | .indexes =>
     if pendIdx then
       let ixs := dirtyIxs c.v
-      let r := c.w.attemptAll (ixs.map (fun ix => (Ev.ixc ix, commitIdx ix c.v.idx)))
-      if r.2 then { c with w := r.1, v := { c.v with dirty := [] }, idxSaved := !ixs.isEmpty }
+      -- indexes flush in order; the first one whose remembered manifest version is stale is rejected
+      let pre := ixs.takeWhile (fun ix => !c.w.ixStale.contains ix)
+      let r := c.w.attemptAll (pre.map (fun ix => (Ev.ixc ix, commitIdx ix c.v.idx)))
+      if r.2 then
+        if pre.length == ixs.length then
+          { c with w := r.1, v := { c.v with dirty := [] }, idxSaved := !ixs.isEmpty }
+        else { c with w := r.1.reject, failed := true }
       else { c with w := r.1, failed := true }
     else c
   | .metaPut =>
@@ -382,6 +391,26 @@ def saveExtOp (w : World) (v : Volatile) : World × Volatile × Out :=
   let r := w.attempt .metaPut (putMeta v1.maxId v1.version)
   if r.2 then (r.1, v1, .ok) else ({ r.1 with metaStale := unk }, v1, .errIo)
 
+/-! ### index compaction (`compact_btree_index` / `compact_bm25_index`) -/
+
+/-- Whether the bucket merge shrinks the bucket count (`commits`) is the index crate's packing
+decision (C10/C11) and an input here (as is `dirtied`: whether the merge rebuilt the bucket table at
+all, which leaves the index with a pending flush even when nothing is written now). When it does, the index runs its own flush: one manifest
+commit of the in-memory content, conditional on the remembered manifest version. Compaction holds
+the exclusive gate like a flush but does NOT poison on failure. -/
+def compactOp (w : World) (v : Volatile) (ix : Nat) (commits : Bool) (dirtied : Bool := false) :
+    World × Volatile × Out :=
+  if v.dead then (w, v, .errState) else
+  -- `compact_buckets` rebuilt the bucket table (every bucket dirty) without shrinking it: nothing
+  -- is written now, the index has a pending flush
+  if !commits then (w, if dirtied then { v with dirty := v.dirty ++ [ix] } else v, .ok) else
+  let w0 : World := { w with preFail := false }
+  if w0.ixStale.contains ix then (w0.reject, v, failOut w0.reject) else
+  let unk := !w0.off && (match w0.sched with | .unknown :: _ => true | _ => false)
+  let r := w0.attempt (.ixc ix) (commitIdx ix v.idx)
+  if r.2 then (r.1, { v with dirty := v.dirty.filter (fun j => j != ix) }, .ok)
+  else ({ r.1 with ixStale := if unk then ix :: r.1.ixStale else r.1.ixStale }, v, .errIo)
+
 /-! ### open (`Collection::open`): load · replay · repair scan -/
 
 def loadV (D : Durable) : Volatile :=
@@ -437,7 +466,7 @@ def recoverV (D : Durable) : Volatile := scan D (replay D (loadV D))
 /-- reboot + `AndaDB::connect` + `open_or_create_collection`: power returns, the old handle is
 gone, the collection is loaded, replayed, repaired and flushed. `none` = the open failed. -/
 def reopenOp (w : World) (now : Nat) : World × Option Volatile × Out :=
-  let w : World := { w with off := false, metaStale := false, preFail := false }
+  let w : World := { w with off := false, metaStale := false, preFail := false, ixStale := [] }
   let v := recoverV w.D
   let r := flushInner w v now
   match r.2.2 with
@@ -450,6 +479,7 @@ inductive Op
   | add (d : Doc) | update (id : Nat) (p : Patch) | remove (id : Nat)
   | flush (now : Nat) | close (now : Nat) | reopen (now : Nat)
   | saveExt
+  | compact (ix : Nat) (commits : Bool) (dirtied : Bool := false)
   | arm (s : List Fault)
 deriving Repr
 
@@ -479,6 +509,7 @@ def step (s : State) : Op → State × Out
   | .flush now => lift s (fun w v => flushOp w v now)
   | .close now => lift s (fun w v => closeOp w v now)
   | .saveExt => lift s (fun w v => saveExtOp w v)
+  | .compact ix c d => lift s (fun w v => compactOp w v ix c d)
   | .reopen now => let r := reopenOp s.w now; ({ w := r.1, h := r.2.1 }, r.2.2)
   | .arm l => ({ s with w := { s.w with sched := l } }, .ok)
 
